@@ -578,7 +578,9 @@ theorem wf_pCreateDirN {mu : FMap} {ms : List FMap} (h : WF mu) (cs : List Str) 
   intro _ m1 h1
   split
   · exact h1
-  · exact wf_andThen (h1.pCreateDir _) (fun _ m2 h2 => wf_pClear h2 _)
+  · rcases pCreateTail_snd m1 (renderC cs) with he | he <;> rw [he]
+    · exact h1.pCreateDir _
+    · exact wf_pClear (h1.pCreateDir _) _
 
 theorem wf_pCreateFileN {mu : FMap} {ms : List FMap} (h : WF mu) (cs : List Str) :
     WF (pCreateFileN mu ms cs).2 := by
